@@ -1,8 +1,10 @@
 import AsherahVerif.Driver.Conc
+import AsherahVerif.Driver.Race
 open AsherahVerif.Driver.Conc
 
 def main (args : List String) : IO UInt32 := do
   match args with
   | "keyref" :: rest => IO.println (keyref rest); return 0
   | "sesscache" :: rest => IO.println (sesscache rest); return 0
+  | ["race"] => AsherahVerif.Driver.runEngine AsherahVerif.Driver.Race.engine; return 0
   | _ => IO.eprintln "usage: md_conc keyref <nKeys> <maxHeld> <maxObjs> <depth>"; return 2
